@@ -2,12 +2,12 @@
 use std::io::{BufReader, Cursor};
 use std::panic::{catch_unwind, AssertUnwindSafe};
 
-use lightmotif::abc::{Alphabet, Dna, Symbol};
+use lightmotif::abc::{Alphabet, Dna, Protein, Symbol};
 use lightmotif_io::{jaspar, jaspar16, transfac, uniprobe};
 
 use crate::rng::Rng;
 
-pub const FORMATS: [&str; 4] = ["jaspar", "jaspar16", "transfac", "uniprobe"];
+pub const FORMATS: [&str; 7] = ["jaspar", "jaspar16", "transfac", "uniprobe", "jaspar16p", "transfacp", "uniprobep"];   // ..p: protein alphabet
 
 /// outcome of reading a byte string to the first error / end of input: number of records, or "panic"/"hang"
 pub fn read_all(fmt: &str, bytes: &[u8], cap: usize) -> Result<(usize, bool, Vec<String>), String> {
@@ -36,6 +36,9 @@ pub fn read_all(fmt: &str, bytes: &[u8], cap: usize) -> Result<(usize, bool, Vec
             "jaspar16" => drive!(jaspar16::read::<_, Dna>(rd), |r: &jaspar16::Record<Dna>| format!("{}|{:?}|{}", r.id(), r.description(), mat_u32(r.matrix().matrix()))),
             "transfac" => drive!(transfac::read::<_, Dna>(rd), |r: &transfac::Record<Dna>| format!("{:?}|{:?}|{:?}|{}", r.id(), r.accession(), r.name(), r.to_counts().map(|c| mat_u32(c.matrix())).unwrap_or_default())),
             "uniprobe" => drive!(uniprobe::read::<_, Dna>(rd), |r: &uniprobe::Record<Dna>| format!("{}|{}", r.id(), mat_f32(r.matrix().matrix()))),
+            "jaspar16p" => drive!(jaspar16::read::<_, Protein>(rd), |r: &jaspar16::Record<Protein>| format!("{}|{:?}|{}", r.id(), r.description(), mat_gen(r.matrix().matrix().iter().map(|x| x.iter().map(|v| v.to_string()).collect()).collect()))),
+            "transfacp" => drive!(transfac::read::<_, Protein>(rd), |r: &transfac::Record<Protein>| format!("{:?}|{:?}|{:?}|{}", r.id(), r.accession(), r.name(), r.to_counts().map(|c| mat_gen(c.matrix().iter().map(|x| x.iter().map(|v| v.to_string()).collect()).collect())).unwrap_or_default())),
+            "uniprobep" => drive!(uniprobe::read::<_, Protein>(rd), |r: &uniprobe::Record<Protein>| format!("{}|{}", r.id(), mat_gen(r.matrix().matrix().iter().map(|x| x.iter().map(|v| v.to_string()).collect()).collect()))),
             _ => Err("unknown format".into()),
         }
     }));
@@ -50,6 +53,53 @@ fn mat_u32(m: &lightmotif::dense::DenseMatrix<u32, <Dna as Alphabet>::K>) -> Str
     for i in 0..m.rows() { for j in 0..5 { s.push_str(&format!("{},", m[i][j])); } s.push(';'); }
     s
 }
+fn mat_gen(rows: Vec<Vec<String>>) -> String {
+    let mut s = String::new();
+    for r in rows { for v in r { s.push_str(&v); s.push(','); } s.push(';'); }
+    s
+}
+/// protein files (20 letters, 21 columns with the wildcard X): same record structure as the DNA generator
+fn gen_file_protein(fmt: &str, rng: &mut Rng, n: usize) -> (String, Vec<String>) {
+    let letters: Vec<char> = "ACDEFGHIKLMNPQRSTVWY".chars().collect();
+    let idx = |c: char| Protein::symbols().iter().position(|s| s.as_char() == c).unwrap();
+    let mut text = String::new(); let mut sigs = Vec::new();
+    for k in 0..n {
+        let w = 1 + rng.below(5);
+        let id = format!("PR{:04}.{}", rng.below(10000), 1 + rng.below(9));
+        let name = format!("PNAME{}", k);
+        let mut order: Vec<usize> = (0..20).collect();
+        if rng.below(2) == 0 { order.reverse(); } if rng.below(2) == 0 { order.swap(3, 17); }
+        match fmt {
+            "jaspar16p" | "transfacp" => {
+                let counts: Vec<Vec<u32>> = (0..w).map(|_| (0..20).map(|_| rng.below(30) as u32).collect()).collect();
+                let mut rows = Vec::new();
+                for i in 0..w { let mut row = vec!["0".to_string(); 21]; for (j, ch) in letters.iter().enumerate() { row[idx(*ch)] = counts[i][j].to_string(); } rows.push(row); }
+                if fmt == "jaspar16p" {
+                    let with_desc = rng.below(2) == 0;
+                    if with_desc { text.push_str(&format!(">{} {}\n", id, name)); } else { text.push_str(&format!(">{}\n", id)); }
+                    for &j in &order { let line: Vec<String> = (0..w).map(|i| format!("{:>2}", counts[i][j])).collect(); text.push_str(&format!("{} [{} ]\n", letters[j], line.join(" "))); }
+                    sigs.push(format!("{}|{:?}|{}", id, if with_desc { Some(name.as_str()) } else { None }, mat_gen(rows)));
+                } else {
+                    text.push_str(&format!("AC  {}\nXX\nID  {}\nXX\nNA  {}\nXX\n", id, id, name));
+                    text.push_str("P0"); for &j in &order { text.push_str(&format!("      {}", letters[j])); } text.push('\n');
+                    for i in 0..w { text.push_str(&format!("{:02}", i + 1)); for &j in &order { text.push_str(&format!("     {:>2}", counts[i][j])); } text.push_str("      X\n"); }
+                    text.push_str("XX\n//\n");
+                    sigs.push(format!("{:?}|{:?}|{:?}|{}", Some(id.as_str()), Some(id.as_str()), Some(name.as_str()), mat_gen(rows)));
+                }
+            }
+            _ => {
+                text.push_str(&format!("{}\n", id));
+                let freqs: Vec<Vec<f32>> = (0..w).map(|_| { let mut v: Vec<f32> = (0..19).map(|_| (1 + rng.below(2)) as f32 / 64.0).collect(); let s: f32 = v.iter().sum(); v.push(1.0 - s); v }).collect();
+                for &j in &order { let line: Vec<String> = (0..w).map(|i| format!("{}", freqs[i][j])).collect(); text.push_str(&format!("{}:\t{}\n", letters[j], line.join("\t"))); }
+                if rng.below(2) == 0 { text.push('\n'); }
+                let mut rows = Vec::new();
+                for i in 0..w { let mut row = vec!["0".to_string(); 21]; for (j, ch) in letters.iter().enumerate() { row[idx(*ch)] = format!("{}", freqs[i][j]).parse::<f32>().unwrap().to_string(); } rows.push(row); }
+                sigs.push(format!("{}|{}", id, mat_gen(rows)));
+            }
+        }
+    }
+    (text, sigs)
+}
 fn mat_f32(m: &lightmotif::dense::DenseMatrix<f32, <Dna as Alphabet>::K>) -> String {
     let mut s = String::new();
     for i in 0..m.rows() { for j in 0..5 { s.push_str(&format!("{},", m[i][j])); } s.push(';'); }
@@ -58,6 +108,7 @@ fn mat_f32(m: &lightmotif::dense::DenseMatrix<f32, <Dna as Alphabet>::K>) -> Str
 
 /// a well-formed file with `n` records in the given format, plus the expected signature of each record
 pub fn gen_file(fmt: &str, rng: &mut Rng, n: usize) -> (String, Vec<String>) {
+    if fmt.ends_with('p') && fmt != "jaspar" { return gen_file_protein(fmt, rng, n); }
     let mut text = String::new();
     let mut sigs = Vec::new();
     if fmt == "transfac" && rng.below(2) == 0 {
@@ -229,7 +280,7 @@ pub fn sweep_c14(tier: &str, seed: u64, only: &str) -> (usize, Vec<String>) {
         if !only.is_empty() && !only.contains(fmt) { continue; }
         let mut bad = false;
         for rep in 0..reps {
-            let count = if rep == 0 { 120 } else { 1 + rng.below(8) };      // one long file: the internal buffer is compacted many times
+            let count = if rep < 3 { 60 + rng.below(240) } else { 1 + rng.below(8) };      // long files (well past 4 KiB): the internal buffer is compacted many times, also on the last record
             let (text, want) = gen_file(fmt, &mut rng, count);
             let b = text.as_bytes();
             let mut caps = vec![1usize, 2, 3, 7, 64, b.len().max(1), b.len() + 10];
@@ -250,6 +301,37 @@ pub fn sweep_c14(tier: &str, seed: u64, only: &str) -> (usize, Vec<String>) {
                     bad = true;
                 }
             }
+        }
+    }
+    // every PREFIX (k = 1..N records) of one long record list: whatever internal threshold a reader has (buffer compaction after so
+    // many bytes, ...), some k makes it fire exactly on the last record; exactly k records and then the end of input are expected
+    for fmt in FORMATS {
+        if !only.is_empty() && !only.contains(fmt) { continue; }
+        let total = if tier == "thorough" { 400 } else { 160 };
+        let mut recs: Vec<(String, String)> = Vec::new();
+        while recs.len() < total {
+            let (t, sg) = gen_file(fmt, &mut rng, 1);
+            if t.starts_with("VV") || sg.len() != 1 || t.len() > 400 { continue; }      // no version header in the middle of a file; keep records small
+            recs.push((t, sg[0].clone()));
+        }
+        let mut text = String::new();
+        let mut bad = false;
+        for k in 1..=total {
+            text.push_str(&recs[k - 1].0);
+            let b = text.as_bytes();
+            for cap in [8192usize, 61] {
+                n += 1;
+                let msg = match read_all(fmt, b, cap) {
+                    Err(e) => Some(e),
+                    Ok((got, err, sigs)) => {
+                        if err { Some(format!("error after {} of {} records (a list of {} records, {} bytes)", got, k, k, b.len())) }
+                        else if got != k { Some(format!("{} records read, {} written", got, k)) }
+                        else { (0..k).find(|&i| sigs[i] != recs[i].1).map(|i| format!("record {} differs", i)) }
+                    }
+                };
+                if let Some(m) = msg { if !bad { fails.push(case_json(&format!("io_{}_reader", fmt), &m.replace('"', "'"), fmt, b, cap)); } bad = true; }
+            }
+            if bad { break; }
         }
     }
     (n, fails)
